@@ -649,9 +649,20 @@ func (c *cmafIngester) sendMediaSegment(ctx context.Context, wg *sync.WaitGroup,
 		}
 	}
 	if c.useChunked {
-		<-writeMoreCh   // Capture final message
-		nrBytesCh <- -1 // Signal that we are done to Read (that reads and pushes to remote)
-		<-finishedSendCh
+		select {
+		case <-writeMoreCh: // Capture final message
+		case <-src.abort:
+			return
+		}
+		select {
+		case nrBytesCh <- -1: // Signal that we are done to Read (that reads and pushes to remote)
+		case <-src.abort:
+			return
+		}
+		select {
+		case <-finishedSendCh:
+		case <-src.abort:
+		}
 	} else {
 		// Write should have written everything to a c.buffer
 		req, err := http.NewRequestWithContext(ctx, "PUT", u, src.buffer)
@@ -691,6 +702,7 @@ type cmafSource struct {
 	user        string
 	password    string
 	useChunked  bool
+	abort       chan struct{} // closed when the chunked sender has returned (with or without error)
 }
 
 func newCmafSource(nrBytesCh chan int, writeMoreCh chan struct{}, log *slog.Logger, url string, contentType, user, password string,
@@ -705,6 +717,7 @@ func newCmafSource(nrBytesCh chan int, writeMoreCh chan struct{}, log *slog.Logg
 		user:        user,
 		password:    password,
 		useChunked:  useChunked,
+		abort:       make(chan struct{}),
 	}
 	if useChunked {
 		cs.buf = make([]byte, 64*1024)
@@ -713,6 +726,7 @@ func newCmafSource(nrBytesCh chan int, writeMoreCh chan struct{}, log *slog.Logg
 }
 
 func (cs *cmafSource) startReadAndSendChunked(ctx context.Context, finishedCh chan struct{}) {
+	defer close(cs.abort) // releases the writer side if the request failed or was answered with an error
 	cs.writeMoreCh <- struct{}{} // Get the writer going
 	cs.ctx = ctx
 	req, err := http.NewRequestWithContext(ctx, "PUT", cs.url, cs)
@@ -777,19 +791,31 @@ func (cs *cmafSource) Write(b []byte) (int, error) {
 		}
 		return n, err
 	}
-	<-cs.writeMoreCh
+	select {
+	case <-cs.writeMoreCh:
+	case <-cs.abort:
+		return 0, io.ErrClosedPipe
+	}
 	if cs.offset != 0 || cs.bufLevel != 0 {
 		cs.log.Warn("bad write levels", "url", cs.url, "offset", cs.offset, "bufLevel", cs.bufLevel)
 	}
 	nrWritten := 0
 	for {
 		n := copy(cs.buf, b[nrWritten:])
-		cs.nrBytesCh <- n
+		select {
+		case cs.nrBytesCh <- n:
+		case <-cs.abort:
+			return nrWritten, io.ErrClosedPipe
+		}
 		nrWritten += n
 		if nrWritten == len(b) {
 			break
 		}
-		<-cs.writeMoreCh // Wait for OK from reader
+		select {
+		case <-cs.writeMoreCh: // Wait for OK from reader
+		case <-cs.abort:
+			return nrWritten, io.ErrClosedPipe
+		}
 	}
 	return len(b), nil
 }
